@@ -65,6 +65,19 @@ impl<'a, S: UtxoStore> InputSelector<'a, S> {
         }
     }
 
+    /// The search space may be padded with partial matches (see `SearchSpace::take`),
+    /// so the address and ref constraints need to be enforced on the fetched utxos.
+    fn matches_constraints(utxo: &Utxo, criteria: &CanonicalQuery) -> bool {
+        let address_ok = criteria
+            .address
+            .as_ref()
+            .map_or(true, |address| utxo.address == *address);
+
+        let ref_ok = criteria.refs.is_empty() || criteria.refs.contains(&utxo.r#ref);
+
+        address_ok && ref_ok
+    }
+
     fn pick_from_set(utxos: UtxoSet, criteria: &CanonicalQuery) -> UtxoSet {
         let target = criteria
             .min_amount
@@ -99,6 +112,7 @@ impl<'a, S: UtxoStore> InputSelector<'a, S> {
         let utxos = utxos
             .into_iter()
             .filter(|x| x.assets.is_only_naked())
+            .filter(|x| Self::matches_constraints(x, criteria))
             .collect();
 
         let matched = Self::pick_from_set(utxos, criteria);
@@ -121,6 +135,11 @@ impl<'a, S: UtxoStore> InputSelector<'a, S> {
             .collect();
 
         let utxos = self.store.fetch_utxos(refs).await?;
+
+        let utxos = utxos
+            .into_iter()
+            .filter(|x| Self::matches_constraints(x, criteria))
+            .collect();
 
         let matched = Self::pick_from_set(utxos, criteria);
 
